@@ -246,7 +246,9 @@ def check(ctx):
     # ---- R06-e effective deadline ----------------------------------------------------------------------------------------------
     eff = ctx.fn("AsyncIOBackend.current_effective_deadline", A)
     v, adv = loop_var(eff)
-    mins = ctx.sites(eff, f"$D = min($D, {v}.deadline)") + ctx.sites(eff, f"$D = min({v}.deadline, $D)") if v else []
+    # (the scope's deadline read through the property or its backing attribute)
+    mins = (ctx.sites(eff, f"$D = min($D, {v}.deadline)") + ctx.sites(eff, f"$D = min({v}.deadline, $D)")
+            + ctx.sites(eff, f"$D = min($D, {v}._deadline)") + ctx.sites(eff, f"$D = min({v}._deadline, $D)")) if v else []
     if ctx.need("R06-e", eff, "accumulation `deadline = min(deadline, cancel_scope.deadline)`", len(mins), 1):
         d = u(mins[0][1]["D"])
         loops = [n for n in own_walk(eff.node) if isinstance(n, ast.While) and any(x is adv for x in ast.walk(n))]
@@ -283,7 +285,7 @@ def check(ctx):
             return st
 
         ctx.paths("R06-e", eff, [("head", [lambda frag, node: node.kind == "loop_head" and id(node.node) in ids]),
-                                 ("min", [f"{d} = min({d}, {v}.deadline)", f"{d} = min({v}.deadline, {d})"]),
+                                 ("min", [f"{d} = min({d}, {v}.deadline)", f"{d} = min({v}.deadline, {d})", f"{d} = min({d}, {v}._deadline)", f"{d} = min({v}._deadline, {d})"]),
                                  ("neg", [f"{d} = -math.inf"]), ("advance", [f"{v} = {v}._parent_scope"]),
                                  ("ret_neg", ["return -math.inf"]), ("ret_d", [f"return {d}"])],
                   step_e, (False, False), lambda k, s, f: None,
